@@ -257,6 +257,7 @@ structure C14St where
   errsent : List (Nat × Nat) := []         -- WaitExited call ↦ error sent on its error channel
   ctxPend : List Nat := []                 -- SetContext / ClearContext calls in flight
   ctxAmb : Bool := false                   -- the latest SetContext invocation overlapped another one: `lastCtx` need not be the container's context
+  retd : Nat := 0                          -- upper bound of the instances that returned and whose final section may not have run yet
 deriving Repr
 
 def removeOne (l : List (Option Nat)) (e : Option Nat) : Option (List (Option Nat)) :=
@@ -279,20 +280,25 @@ def monC14 : ObsMonitor Obs C14St where
     | .cbout k e =>
       let untouched := ms.running.any fun p => p.1 == k && !p.2
       let ms := { ms with running := ms.running.filter (·.1 != k), outs := (k, e) :: ms.outs,
-                          unreported := e :: ms.unreported }
+                          unreported := e :: ms.unreported, retd := ms.retd + 1 }
       if untouched then
         some { ms with lastExit := some e,
                        expectReset := if e.isNone && ms.cfg.retry then ms.expectReset + 1 else ms.expectReset }
       else some ms
     -- the exit is known to the container once its final section reports it (backoff call, first exit callback)
-    | .bo .dur => some { ms with lastExit := none, needCause := false,
+    -- a report is credited to the instance of `lastExit` only if it is the only instance whose final section can
+    -- be the one reporting (`retd = 1`: every other returned instance was settled by a quiescence line); a delayed
+    -- final section of a superseded instance may otherwise report in between
+    | .bo .dur => some { ms with lastExit := none, needCause := false, retd := if ms.retd == 1 then 0 else ms.retd,
                                  retryDue := ms.pendMut.isEmpty && ms.lastCtx != 0 && !ms.croots.contains ms.lastCtx &&
                                    !ms.ctxAmb }
-    | .bo .stop => some { ms with lastExit := none, needCause := ms.needCause || (match ms.lastExit with
-                                                                                   | some (some _) => true
-                                                                                   | _ => false) }
+    | .bo .stop => some { ms with lastExit := none, retd := if ms.retd == 1 then 0 else ms.retd,
+                                  needCause := ms.needCause || (ms.retd == 1 && (match ms.lastExit with
+                                                                                 | some (some _) => true
+                                                                                 | _ => false)) }
     | .bo .reset => some { ms with lastExit := none, expectReset := ms.expectReset - 1,
-                                   needS := ms.needS || ms.lastExit == some none }
+                                   retd := if ms.retd == 1 then 0 else ms.retd,
+                                   needS := ms.needS || (ms.retd == 1 && ms.lastExit == some none) }
     | .envCancel c => some { ms with retryDue := false, croots := c :: ms.croots }
     | .envCancelW a => some { ms with wcancelled := a :: ms.wcancelled }
     | .envErr a e => some { ms with errsent := (a, e) :: ms.errsent }
@@ -346,18 +352,39 @@ def monC14 : ObsMonitor Obs C14St where
           let next := if ms.cfg.ncb ≤ 1 then 0 else 1
           -- with a backoff configured the backoff call (which comes first) tells whose exit this is
           let ms := if ms.cfg.retry then ms
-                    else { ms with lastExit := none,
-                                   needCause := ms.needCause || (e.isSome && ms.lastExit == some e),
-                                   needS := ms.needS || (e.isNone && ms.lastExit == some e) }
+                    else { ms with lastExit := none, retd := if ms.retd == 1 then 0 else ms.retd,
+                                   needCause := ms.needCause || (ms.retd == 1 && e.isSome && ms.lastExit == some e),
+                                   needS := ms.needS || (ms.retd == 1 && e.isNone && ms.lastExit == some e) }
           (match removeOne ms.unreported e with
            | some l => some { ms with cbNext := next, cbErr := e, unreported := l }
            | none => if e == some 0 then some { ms with cbNext := next, cbErr := e } else none)
       else if j == ms.cbNext && e == ms.cbErr then
         some { ms with cbNext := if j + 1 ≥ ms.cfg.ncb then 0 else j + 1 }
       else none
+    -- at a quiescence line every final section has run
     | .quiesce _ _ _ =>
-      if ms.retryDue || ms.expectReset != 0 || ms.cbNext != 0 then none else some ms
+      if ms.retryDue || ms.expectReset != 0 || ms.cbNext != 0 then none else some { ms with retd := 0, lastExit := none }
     | _ => some ms
+
+/-- the counter-example that made the run-cause clause unsound before `retd`: instance 0 is superseded and returns
+nil, its final section is delayed; instance 1 (untouched) returns nil; the delayed final section reports
+(`bo reset`); SetContext then legitimately starts a new instance, because instance 1 is not recorded yet -/
+example : monC14.accepts
+    [.cfg { retry := true }, .inv 0 (.setContext 1 false), .ret 0 (.bool false), .inv 1 (.setRoutine 1),
+     .ret 1 (.setR false false), .cbin 0 1 0 1, .probeCtx 0 false, .inv 2 (.setRoutine 2), .ret 2 (.setR true true),
+     .cbout 0 none, .cbin 1 2 0 1, .probeCtx 1 false, .cbout 1 none, .bo .reset, .inv 3 (.setContext 2 false),
+     .ret 3 (.bool true), .cbin 2 2 0 2] = true := by decide
+
+/-- the clause still fires when the attribution is unambiguous: a single instance succeeded (or failed with `Stop`)
+and a new instance enters although no mutating call was made -/
+example : monC14.accepts
+    [.cfg { retry := true }, .inv 0 (.setContext 1 false), .ret 0 (.bool false), .inv 1 (.setRoutine 1),
+     .ret 1 (.setR false false), .cbin 0 1 0 1, .probeCtx 0 false, .cbout 0 none, .bo .reset,
+     .cbin 1 1 0 1] = false := by decide
+example : monC14.accepts
+    [.cfg { retry := true }, .inv 0 (.setContext 1 false), .ret 0 (.bool false), .inv 1 (.setRoutine 1),
+     .ret 1 (.setR false false), .cbin 0 1 0 1, .probeCtx 0 false, .cbout 0 (some 3), .bo .stop,
+     .cbin 1 1 0 1] = false := by decide
 
 /-! ## C14h — a healthy instance is left alone, and moved to a new context when asked -/
 
